@@ -205,8 +205,12 @@ def sh(cmd, cwd=None, timeout=None, env=None):
 
 
 class BuildLock:
+    def __init__(self, name="all"):
+        self.name = name
+
     def __enter__(self):
-        self.f = open(os.path.join(LEAN_DIR, ".build.lock"), "w")
+        os.makedirs(os.path.join(LEAN_DIR, ".lake"), exist_ok=True)
+        self.f = open(os.path.join(LEAN_DIR, ".lake", f"build.{self.name}.lock"), "w")
         fcntl.flock(self.f, fcntl.LOCK_EX)
         return self
 
@@ -217,7 +221,8 @@ class BuildLock:
 
 def lean_build(targets):
     """Build the given Lean modules / executables. Returns (ok, log)."""
-    with BuildLock():
+    lock = next((t for t in targets if t.startswith("dm_")), "all")
+    with BuildLock(lock):
         rc, out = sh(["lake", "build"] + list(targets), cwd=LEAN_DIR, timeout=3000)
     return rc == 0, out
 
@@ -312,6 +317,7 @@ def setup_repo_path():
     """Make `import dask` resolve to /repo's working tree, with import stubs appended."""
     if REPO not in sys.path:
         sys.path.insert(0, REPO)
+    os.environ["PYTHONPATH"] = REPO + (os.pathsep + os.environ["PYTHONPATH"] if os.environ.get("PYTHONPATH") else "")
     os.environ.setdefault("DASK_VERIF", "1")
 
 
